@@ -10,7 +10,8 @@ def run(chk):
                 'fallback. (2) the REAL trash-put is killed (process exit) immediately before operation k for every k of '
                 'the uninterrupted run and after the last one, for each scenario (file / directory tree / link / empty '
                 'file; first use of a trash directory, existing directory, collisions with orphans and strays, volume '
-                'trash directory, home fallback across volumes with its per-file copy and delete steps); the projected '
+                'trash directory, home fallback across volumes with its per-file copy and delete steps, names too long for their '
+                '.trashinfo, and two or three arguments in one invocation); the projected '
                 'on-disk state after the kill is judged by TLC (FsTrace): payload present => info present, complete and '
                 'parseable; entry complete at its place or complete under files/. (3) the same for a kill by interrupt: '
                 'KeyboardInterrupt (Ctrl-C) raised immediately before operation k, and on the return of operation k (where '
@@ -24,7 +25,7 @@ def run(chk):
         ('crash_two', dict(procs=('p1', 'p2'), slots=('n', 'n1'))),
     ])
     items = []
-    for scen in opdrivers.SINGLE_SCENARIOS:
+    for scen in list(opdrivers.SINGLE_SCENARIOS) + list(opdrivers.MULTI_SCENARIOS):
         n, ops, ex = opdrivers.baseline_ops(scen, chk.seed)
         if ex != 0:
             chk.notes.append('the uninterrupted run of %s exits %s' % (scen, ex))
